@@ -37,16 +37,33 @@ OffsetVectors == IF Tier = "quick" THEN Single \cup PairsOf(CoarseOffsets, Coars
 \* a few vectors without a peer / with unfinished sync (the wait is then not constrained)
 FlagVectors == {[f \in Fields |-> IF f = "connected" THEN d ELSE FarPast] : d \in {At(-20, 0), At(0, 0), At(9, 0)}}
 
+\* vectors in which some of the four other timestamps were never set (the zero instant, year 1).  The zero instant
+\* lies more than 50 units before every `now` used here, so for the specification it is a timestamp in the far past;
+\* the harness substitutes the zero instant (in several representations) for the fields named in `zero`.
+OtherFields == Fields \ {"synced"}
+ZeroVectors == {[zero |-> Z, off |-> [f \in Fields |-> IF f = g THEN d ELSE FarPast]] :
+                  Z \in (SUBSET OtherFields) \ {{}}, g \in Fields, d \in {At(-20, 0), At(0, 0), At(9, 0)}}
+
 SyncedInit ==
   \E now \in Nows, thr \in Thresholds :
      \/ \E off \in OffsetVectors :
-          vec = [op |-> "synced", peers |-> 1, synced |-> TRUE, now |-> now, thr |-> thr, ts |-> [f \in Fields |-> now + off[f]]]
+          vec = [op |-> "synced", peers |-> 1, synced |-> TRUE, now |-> now, thr |-> thr, zero |-> {},
+                 ts |-> [f \in Fields |-> now + off[f]]]
      \/ \E off \in FlagVectors, pr \in {0, 1, 3}, sy \in BOOLEAN :
           /\ (pr = 0 \/ ~sy)
-          /\ vec = [op |-> "synced", peers |-> pr, synced |-> sy, now |-> now, thr |-> thr, ts |-> [f \in Fields |-> now + off[f]]]
+          /\ vec = [op |-> "synced", peers |-> pr, synced |-> sy, now |-> now, thr |-> thr, zero |-> {},
+                    ts |-> [f \in Fields |-> now + off[f]]]
+     \/ \E zv \in ZeroVectors, sy \in BOOLEAN :
+          vec = [op |-> "synced", peers |-> 1, synced |-> sy, now |-> now, thr |-> thr, zero |-> zv.zero,
+                 ts |-> [f \in Fields |-> IF f \in zv.zero THEN now + FarPast ELSE now + zv.off[f]]]
+ZeroPast == At(-60, 0)      \* stands for the zero instant in DetectParallelInstance vectors (earlier than every other offset)
 ParallelInit ==
-  \E now \in Nows, thr \in Thresholds, ds \in Offsets, dc \in Offsets :
-     vec = [op |-> "parallel", now |-> now, thr |-> thr, startup |-> now + ds, created |-> now + dc]
+  \E now \in Nows, thr \in Thresholds :
+     \/ \E ds \in Offsets, dc \in Offsets :
+          vec = [op |-> "parallel", now |-> now, thr |-> thr, zero |-> {}, startup |-> now + ds, created |-> now + dc]
+     \/ \E d \in Offsets :
+          \/ vec = [op |-> "parallel", now |-> now, thr |-> thr, zero |-> {"created"}, startup |-> now + d, created |-> now + ZeroPast]
+          \/ vec = [op |-> "parallel", now |-> now, thr |-> thr, zero |-> {"startup"}, startup |-> now + ZeroPast, created |-> now + d]
 Init == SyncedInit \/ ParallelInit
 Next == UNCHANGED vec
 Spec == Init /\ [][Next]_vec
@@ -67,8 +84,10 @@ Result ==
   ELSE [parallel |-> Parallel(vec.now, vec.startup, vec.created, vec.thr)]
 Cls == IF vec.op = "synced" THEN Class(vec.now, {vec.ts[f] : f \in Fields}, vec.thr)
        ELSE Class(vec.now, {vec.created}, vec.thr)
+\* the harness runs every vector in several representations of the same instants (locations, monotonic readings,
+\* reconstruction from Unix seconds) and reports the set of distinct outcomes: it must be exactly {Result}
 EmitVec == PrintT(<<"EDGE", ToJson([pre |-> 0, post |-> 0,
-                                    act |-> [op |-> vec.op \o "/" \o Cls, in |-> vec, res |-> Result]])>>)
+                                    act |-> [op |-> vec.op \o "/" \o Cls, in |-> vec, res |-> {Result}]])>>)
 
 \* TLC-side sanity of the operators at U = 16 (the Apalache obligations cover U = 2^60 symbolically)
 Sane ==
